@@ -193,3 +193,81 @@ package dag
 //@   prop C14
 //@   call (PayloadStore).writePayload #1 requires [event-saved-first-in-the-same-tx]
 //@        did(call (*state).saveEvent #1) && isNilIface(ret(call (*state).saveEvent #1)) && arg(call (*state).saveEvent #1, 1) == tx && arg(1) == tx
+
+// ---- C14: the notifier: an event leaves the store only when its receiver finished it ----
+
+//@ func (notifier).isPersistent
+//@   inline
+//@ func (notifier).shelfName
+//@   prop C14
+//@   pure heap
+//@ func (*notifier).incFinished
+//@   prop C14
+//@   assume-benign
+//@ func (*notifier).incNotified
+//@   prop C14
+//@   assume-benign
+//@ func (*notifier).logNotificationResponse
+//@   prop C14
+//@   assume-benign
+//@ func (*notifier).retry
+//@   prop C14
+//@   assume-benign
+//@ func v4.Unrecoverable
+//@   trusted
+//@   benign
+//@   ensures !isNilIface(result)
+// notification filters are predicates on the event (ASSUMED without effect)
+//@ func f
+//@   trusted
+//@   benign
+//@ func timeFunc
+//@   trusted
+//@   benign
+// the receiver is the subscriber's callback (ASSUMED not to modify the notifier)
+//@ func .receiver
+//@   trusted
+//@   benign
+
+//@ func (*notifier).writeEvent
+//@   prop C14
+//@   assume-benign
+//@   ensures [stored-under-the-events-hash] isNilIface(result) ==> did(call (go-stoabs.Writer).Put #1) && isNilIface(ret(call (go-stoabs.Writer).Put #1)) && arg(call (go-stoabs.Writer).Put #1, 0) == writer
+//@        && same(arg(call (crypto/hash.SHA256Hash).Slice #1, 0), event.Hash)
+
+//@ func (*notifier).readEvent
+//@   prop C14
+//@   assume-benign
+//@   ensures [event-iff-ok] isNilIface(result.1) ==> result.0 != nil
+
+// Deletes exactly the entry of this hash, in a write on the notifier's own shelf.
+//@ func (*notifier).Finished
+//@   prop C14
+//@   ensures [persistent-entry-deleted] isNilIface(result) && p.db != nil ==> did(call (go-stoabs.KVStore).WriteShelf #1) && arg(call (go-stoabs.KVStore).WriteShelf #1, 2) == p.shelfName()
+//@ func (*notifier).Finished$1
+//@   prop C14
+//@   ensures [deletes-this-hash] did(call (go-stoabs.Writer).Delete #1) && arg(call (go-stoabs.Writer).Delete #1, 0) == writer && result == ret(call (go-stoabs.Writer).Delete #1)
+
+// An event is marked finished (deleted) only after the receiver returned (true, nil) for the stored
+// event; every other outcome is recorded on the event (error, retries + 1) and reported as an error,
+// which is what keeps the retry loop going; a fatal error pushes the retry count to the maximum.
+//@ func (*notifier).notifyNow
+//@   prop C14
+//@   call (*notifier).Finished #1 requires [only-when-the-receiver-finished-the-event] did(call .receiver #1) && isNilIface(ret(call .receiver #1).1) && ret(call .receiver #1).0 == true
+//@        && arg(1) == dbEvent.Hash && same(arg(call .receiver #1, 0), *dbEvent)
+//@   ensures [unfinished-is-an-error] did(call .receiver #1) && (!isNilIface(ret(call .receiver #1).1) || ret(call .receiver #1).0 == false) ==> !isNilIface(result)
+//@   ensures [success-only-when-finished-or-gone] isNilIface(result) ==> !did(call .receiver #1) || (did(call (*notifier).Finished #1) && isNilIface(ret(call (*notifier).Finished #1)))
+
+// A failed notification is retried unless the receiver said it is fatal.
+//@ func (*notifier).Notify
+//@   prop C14
+//@   loop 1 invariant true
+//@   ensures [non-fatal-failure-is-rescheduled] did(call (*notifier).notifyNow #1) && !isNilIface(ret(call (*notifier).notifyNow #1)) && ret(call errors.As #1) == false ==>
+//@        did(call (*notifier).retry #1) && same(arg(call (*notifier).retry #1, 1), event)
+
+// Only new events are scheduled, on the notifier's own database, after the filters accepted them.
+//@ func (*notifier).Save
+//@   prop C14
+//@   loop 1 invariant true
+//@   call (*notifier).writeEvent #1 requires [new-event-on-own-db] ret(call (go-stoabs.WriteTx).Store #1) == p.db && ret(call errors.Is #1) == true && arg(call errors.Is #1, 0) == ret(call (*notifier).readEvent #1).1
+//@        && same(arg(2), event) && arg(1) == ret(call (go-stoabs.WriteTx).GetShelfWriter #1) && arg(call (go-stoabs.WriteTx).GetShelfWriter #1, 1) == ret(call (notifier).shelfName #1)
